@@ -130,7 +130,59 @@ func isRecvItself(e ast.Expr, recv string) bool {
 	return false
 }
 
+// aliasesOf: local variables that may hold the receiver itself (`x := v`, `var x = v`, `x = v`)
+func aliasesOf(body *ast.BlockStmt, recv string) map[string]bool {
+	al := map[string]bool{}
+	if recv == "" {
+		return al
+	}
+	isRecv := func(e ast.Expr) bool {
+		id, ok := e.(*ast.Ident)
+		return ok && (id.Name == recv || al[id.Name])
+	}
+	for changed := true; changed; {
+		changed = false
+		ast.Inspect(body, func(n ast.Node) bool {
+			switch x := n.(type) {
+			case *ast.AssignStmt:
+				for i, r := range x.Rhs {
+					if i < len(x.Lhs) && isRecv(r) {
+						if id, ok := x.Lhs[i].(*ast.Ident); ok && id.Name != "_" && !al[id.Name] {
+							al[id.Name] = true
+							changed = true
+						}
+					}
+				}
+			case *ast.ValueSpec:
+				for i, r := range x.Values {
+					if i < len(x.Names) && isRecv(r) && !al[x.Names[i].Name] {
+						al[x.Names[i].Name] = true
+						changed = true
+					}
+				}
+			}
+			return true
+		})
+	}
+	return al
+}
+
 func analyseBody(p *packages.Package, body *ast.BlockStmt, recv string, mi *methodInfo) {
+	// a local that may be the receiver counts as the receiver (may-alias)
+	aliases := aliasesOf(body, recv)
+	if len(aliases) > 0 {
+		for a := range aliases {
+			sub := &methodInfo{}
+			analyseBodyFor(p, body, a, sub)
+			mi.direct = mi.direct || sub.direct
+			mi.selfCalls = append(mi.selfCalls, sub.selfCalls...)
+			mi.fieldCalls = append(mi.fieldCalls, sub.fieldCalls...)
+		}
+	}
+	analyseBodyFor(p, body, recv, mi)
+}
+
+func analyseBodyFor(p *packages.Package, body *ast.BlockStmt, recv string, mi *methodInfo) {
 	writeTo := func(e ast.Expr) {
 		if _, ok := recvField(e, recv); ok {
 			mi.direct = true
